@@ -200,6 +200,9 @@ Definition dispatch (kind : string) (args : list string) : string :=
         end
     | _ => BADARGS
     end
+  else if String.eqb kind "hm" then
+    (* histories with truncated / corrupted frames: differential only (shared scribbled buffer = private buffers) *)
+    out3 "T" "-" "-"
   else if String.eqb kind "hw" then
     (* private buffers; the application overwrites every byte slice it gets back by value: nothing may change *)
     match args with
